@@ -254,6 +254,30 @@ Theorem C17_legal_reported_once :
 Proof. exact legal_reported_once. Qed.
 Print Assumptions C17_legal_reported_once.
 
+(* Event level, concurrent: a call-site invocation of either component = the registry method under the
+   shard lock TOGETHER WITH the events computed from that method's own return value.  Every complete
+   concurrent history of such invocations (results = registry result and published session ids) is
+   linearizable w.r.t. the sequential call-site specification. *)
+Theorem C17_call_sites_linearizable :
+  forall progs c, s_reach progs c -> quiescent c ->
+    exists lin : list (entry site_op site_ret),
+      (forall t, proj t (c_hist c) = proj t (expand lin)) /\
+      site_legal new_registry lin /\ NoDup (ids lin) /\
+      (forall a r b o, before (ERes a r) (EInv b o) (c_hist c) -> before a b (ids lin)).
+Proof. exact call_sites_linearizable. Qed.
+Print Assumptions C17_call_sites_linearizable.
+
+(* ... and in such a linearization the registry part is a legal registry history (so
+   C17_legal_reported_once applies to it) and the events of every entry are exactly those its own
+   registry result determines: an event is published for a displacement iff that very claim reported it. *)
+Theorem C17_site_events_follow_reports :
+  forall lin r, site_legal r lin ->
+    legal_from r (map (fun e => (snd (e_op e), fst (e_ret e))) lin) /\
+    forall e, In e lin ->
+      snd (e_ret e) = site_events_v (snd (fst (e_op e))) (fst (fst (e_op e))) (snd (e_op e)) (fst (e_ret e)).
+Proof. exact site_legal_pairs. Qed.
+Print Assumptions C17_site_events_follow_reports.
+
 (* ---- both components end to end (Model.e2e_step) ----
    Variant Repaired = all recorded repairs: 94649ad (in /repo), and the two repairs still proposed
    (fixes/C17_ipoe_request_solicit_never_claim.patch, fixes/C17_pppoe_superseded_session_survives.patch).
@@ -356,3 +380,10 @@ Example C17_blocked_nonvacuous :
     ~ can_acquire lock_of op_is_read (c_th c) 0%nat (OClaim ex_key ex_a).
 Proof. exact ex_blocked. Qed.
 Print Assumptions C17_blocked_nonvacuous.
+
+(* a reachable configuration with two readers inside the same shard lock at once *)
+Example C17_two_readers_nonvacuous :
+  exists c, t_reach ex_progs c /\ t_st (c_th c 0%nat) = TLocked (OLookup ex_key) /\
+            t_st (c_th c 1%nat) = TLocked (OLookup ex_key).
+Proof. exact ex_two_readers. Qed.
+Print Assumptions C17_two_readers_nonvacuous.
